@@ -325,6 +325,9 @@ def run(prop: str, tier: str) -> int:
     if prop == "C07":
         from . import checks_query
         checks_query.copies_stage(rep, quick)
+    if prop == "C03":
+        from . import checks_serial
+        checks_serial.dup_routes_stage(rep, quick)
     if prop == "C13":
         stage_faults(rep, props, label="faults<=3x2" if quick else "faults<=4x3", max_nodes=3 if quick else 4,
                      d=2 if quick else 3, flnames=["str", "keyed"])
